@@ -87,6 +87,28 @@ fn main() {
         world::cleanup_scratch();
         std::process::exit(0);
     }
+    if args[1] == "tcp-reset-demo" {
+        use world::*;
+        let node = Node::new_single("tcp-reset-demo");
+        let mut admin = Session::new();
+        admin.exec(&node, &format!("auth {} {}", USER, PWD));
+        admin.exec(&node, "create-db t tok none");
+        admin.exec(&node, "use-db t tok");
+        admin.exec(&node, &format!("set big {}", "x".repeat(3_000_000)));
+        let _ = admin.disconnect(&node);
+        let tcp = tcp::TcpServer::start(node.dbs.clone());
+        let count = || with_db(&node.dbs, "t", |db| db.connections_count()).unwrap_or(usize::MAX);
+        println!("before: counter {}", count());
+        for round in 0..3 {
+            let mut c = tcp.connect();
+            c.send_raw(b"use-db t tok\nget big\nget big\nget big\n");
+            std::thread::sleep(std::time::Duration::from_millis(if round == 0 { 0 } else { 30 }));
+            c.reset();
+            std::thread::sleep(std::time::Duration::from_millis(500));
+            println!("round {}: counter {} panics {} last {:?}", round, count(), world::PANIC_COUNT.load(std::sync::atomic::Ordering::SeqCst), world::PANIC_LOG.lock().unwrap().last());
+        }
+        std::process::exit(0);
+    }
     if args[1] == "ws-demo" {
         use world::*;
         let node = Node::new_single("ws-demo");
